@@ -14,11 +14,11 @@ pub const PATHS: &[&str] = &[
 
 const LITS: &[&str] = &["1", "\"s\"", "true", "null", "[1, 2]", "{\"b\": 1}", "{\"b\": {\"c\": 2}}", "[]", "{}", "2.5"];
 
-pub const N_PRODUCTIONS: usize = 20;
+pub const N_PRODUCTIONS: usize = 23;
 pub const PRODUCTION_NAMES: [&str; N_PRODUCTIONS] = [
     "assign_path", "assign_var", "merge_assign", "infallible_path_var", "infallible_var_path", "del", "del_compact",
     "if_exists", "if_eq", "for_each_object", "for_each_array", "map_values", "filter", "unnest", "replace_root",
-    "merge_root", "abort", "return", "exists_stmt", "assign_index_deep",
+    "merge_root", "abort", "return", "exists_stmt", "assign_index_deep", "chained_assign", "infallible_path_path", "root_functions",
 ];
 
 pub struct Gen<'a> {
@@ -31,7 +31,7 @@ pub struct Gen<'a> {
 
 impl<'a> Gen<'a> {
     pub fn new(rng: &'a mut Rng) -> Self {
-        let base: [u32; N_PRODUCTIONS] = [10, 5, 4, 4, 4, 6, 4, 5, 4, 4, 4, 3, 3, 4, 3, 3, 1, 1, 2, 3];
+        let base: [u32; N_PRODUCTIONS] = [10, 5, 4, 4, 4, 6, 4, 5, 4, 4, 4, 3, 3, 4, 3, 3, 1, 1, 2, 3, 3, 4, 3];
         let mut weights = base;
         // swarm: disable a random half of the productions (never all)
         for w in weights.iter_mut() {
@@ -198,10 +198,25 @@ impl<'a> Gen<'a> {
             16 => "abort".to_string(),
             17 => format!("return {}", self.rvalue()),
             18 => format!("exists({})", self.npath()),
-            _ => {
+            19 => {
                 let r = self.rvalue();
                 let p = ["%m.arr[1]", ".o.p", ".a.b.c", ".arr[3]", ".b[0]", "%m.n.k"][self.rng.below(6)];
                 format!("{p} = {r}")
+            }
+            20 => format!("{} = {} = {}", self.wpath(), self.wpath(), self.rvalue()),
+            21 => {
+                let p = self.path();
+                format!("{}, {} = to_int({})", self.wpath(), self.wpath(), self.any(p))
+            }
+            _ => {
+                // functions that take the whole event / metadata as a value
+                let root = if self.rng.chance(0.7) { "." } else { "%" };
+                match self.rng.below(4) {
+                    0 => format!("{} = length({root})", self.wpath()),
+                    1 => format!("{} = encode_json({root})", self.wpath()),
+                    2 => format!("{root} = merge({root}, {{\"mz\": {}}})", self.rvalue()),
+                    _ => format!("{} = get!({root}, [\"a\"])", self.wpath()),
+                }
             }
         }
     }
